@@ -120,6 +120,10 @@ fn compile_error_message(tokens: &proc_macro2::TokenStream) -> Option<String> {
 
 /// Expands one request on the current thread and applies T1–T3.
 pub fn expand_and_observe(req: &Request) -> Obs {
+    expand_and_observe_known(req, None)
+}
+
+pub fn expand_and_observe_known(req: &Request, known: Option<&Known>) -> Obs {
     let mut obs = Obs {
         outcome: Outcome::Ok,
         digest: String::new(),
@@ -165,8 +169,17 @@ pub fn expand_and_observe(req: &Request) -> Obs {
             return obs;
         }
     };
-    obs.text = out.to_string();
     obs.digest = digest(&canon(&out));
+    if let Some(k) = known {
+        if k.digest == obs.digest && k.outcome == Outcome::Ok {
+            // token-for-token the output already judged at the first delivery
+            if k.had_errors {
+                obs.errors.push("(as at the first delivery)".into());
+            }
+            return obs;
+        }
+    }
+    obs.text = out.to_string();
     // T2 twice: the token stream as returned, and its printed form (a real compiler does not
     // honour None-delimited groups the way syn does, so output that only parses thanks to them
     // is not well-formed for a user)
@@ -288,7 +301,7 @@ pub fn seam_active() -> bool {
     cfg!(not(frozenlib_derive_ex_verif_stdhash))
 }
 
-type Job = Option<Request>;
+type Job = Option<(Request, Option<Known>)>;
 
 struct Worker {
     tx: Sender<Job>,
@@ -296,9 +309,19 @@ struct Worker {
     handle: Option<std::thread::JoinHandle<()>>,
 }
 
+/// What the session model already holds for an input (first delivery): if a re-delivery produces
+/// the same 128-bit digest, its tokens are the ones T2 / T3 have already judged, and printing and
+/// re-parsing them again is skipped (re-deliveries are most of a long session).
+#[derive(Clone, Debug)]
+pub struct Known {
+    pub digest: String,
+    pub outcome: Outcome,
+    pub had_errors: bool,
+}
+
 fn worker_loop(rx: Receiver<Job>, tx: Sender<Obs>) {
-    while let Ok(Some(req)) = rx.recv() {
-        let obs = expand_and_observe(&req);
+    while let Ok(Some((req, known))) = rx.recv() {
+        let obs = expand_and_observe_known(&req, known.as_ref());
         if tx.send(obs).is_err() {
             break;
         }
@@ -533,15 +556,20 @@ fn controller(plan: &Plan, opts: &ExecOptions, main: Worker) -> (ExecLog, bool) 
             let _ = f.flush();
         }
         apply_policy(&step.policy);
+        let known: Option<Known> = model.get(&step.req).map(|(ii, _)| {
+            let rec = &log.inputs[*ii];
+            Known { digest: rec.digest.clone(), outcome: rec.outcome.clone(), had_errors: !rec.errors.is_empty() }
+        });
         let obs: Obs = if step.thread == "fresh" {
             fresh_count += 1;
             let (tx, rx) = channel::<Obs>();
             let r2 = req.clone();
+            let k2 = known.clone();
             let h = std::thread::Builder::new()
                 .name(format!("fresh{fresh_count}"))
                 .stack_size(WORKER_STACK)
                 .spawn(move || {
-                    let _ = tx.send(expand_and_observe(&r2));
+                    let _ = tx.send(expand_and_observe_known(&r2, k2.as_ref()));
                 })
                 .expect("spawn fresh thread");
             match rx.recv_timeout(opts.timeout) {
@@ -573,7 +601,7 @@ fn controller(plan: &Plan, opts: &ExecOptions, main: Worker) -> (ExecLog, bool) 
                 );
             }
             let w = &workers[&step.thread];
-            w.tx.send(Some(req.clone())).expect("worker alive");
+            w.tx.send(Some((req.clone(), known.clone()))).expect("worker alive");
             match w.rx.recv_timeout(opts.timeout) {
                 Ok(o) => o,
                 Err(RecvTimeoutError::Timeout) => {
